@@ -25,6 +25,28 @@ static long lx[MAX_SCRIPT_THREADS], ly[MAX_SCRIPT_THREADS], lcnt[MAX_SCRIPT_THRE
 static struct script scripts[MAX_SCRIPT_THREADS];
 static int nthreads;
 static int qcs[MAX_SCRIPT_THREADS];	/* qsbr: currently open implicit section or -1 */
+static int reg_mode;			/* scenario `registry` */
+static int wave[MAX_SCRIPT_THREADS];
+static int registered_in_wave0;
+static int sig_after[MAX_SCRIPT_THREADS];
+static int handler_runs, bp_cap;
+
+/* bp: a handler that uses the read side; if it ever ran inside the automatic
+ * registration it would self-deadlock on the registry lock or register twice */
+static void reg_sig_handler(int signo)
+{
+	int cs;
+	struct obj *p;
+	(void) signo;
+	F->read_lock();
+	cs = orc_cs_begin(100 + usim_tid());
+	p = rcu_dereference(gptr);
+	if (p->a != p->version * 3 + 1)
+		usim_fail("reclaimed-object-read", "signal handler saw a reclaimed object");
+	orc_cs_end(cs);
+	F->read_unlock();
+	handler_runs++;
+}
 
 static struct obj *new_obj(void)
 {
@@ -122,6 +144,8 @@ static void *gp_thread(void *arg)
 	int me = (int) (s - scripts), i, last = script_last(s);
 
 	usim_thread_name("script%d", me);
+	if (reg_mode && F->is_bp && sig_after[me])
+		usim_signal_plan(usim_tid(), 10, (uint64_t) sig_after[me]);
 	if (!F->is_bp)
 		F->register_thread();
 	qsbr_open(me);
@@ -135,7 +159,11 @@ static void *gp_thread(void *arg)
 			usim_quiet_vote();
 		usim_trace("op %d.%d %s", me, i, opname[op->kind]);
 		switch (op->kind) {
-		case OP_READ: do_read(me, op); break;
+		case OP_READ:
+			do_read(me, op);
+			if (reg_mode && F->is_bp && wave[me] == 0)
+				registered_in_wave0 = 1;
+			break;
 		case OP_UPDATE: do_update(me); break;
 		case OP_SYNC: do_sync(me, "synchronize_rcu()"); break;
 		case OP_LITMUS_W: do_litmus_w(me); break;
@@ -180,6 +208,8 @@ static void gen(int live)
 {
 	int t, i, maxthr = usim_tier() ? 6 : 4, maxops = usim_tier() ? 8 : 5;
 
+	if (reg_mode)
+		maxthr = 8;
 	nthreads = (int) usim_param("nthreads", 2 + rnd(maxthr - 1));
 	usim_describe("{\"flavor\":\"%s\",", F->name);
 	choose_rcu_knobs(live);
@@ -193,11 +223,14 @@ static void gen(int live)
 			struct op *op = &s->ops[i];
 			uint32_t r = rnd(100);
 			int rd = role == 0 ? 70 : role == 1 ? 20 : 45;
+			int rr = reg_mode ? 40 : 14;
+			if (reg_mode)
+				rd = rd * 2 / 3;
 			if (r < (uint32_t) rd)
 				op->kind = OP_READ;
 			else if (r < (uint32_t) rd + 8 && F->is_qsbr)
 				op->kind = rnd(2) ? OP_QS : OP_OFFON;
-			else if (r < (uint32_t) rd + 14 && !F->is_bp)
+			else if (r < (uint32_t) rd + (uint32_t) rr && !F->is_bp)
 				op->kind = OP_REREG;
 			else {
 				static const int upd[] = { OP_UPDATE, OP_UPDATE, OP_SYNC, OP_LITMUS_W };
@@ -212,6 +245,15 @@ static void gen(int live)
 			usim_describe("\"");
 		}
 		usim_describe("]");
+		wave[t] = 0;
+		sig_after[t] = 0;
+		if (reg_mode && F->is_bp) {
+			/* last one or two threads form a second wave started after everybody exited */
+			if (nthreads >= 3 && t >= nthreads - 1 - (int) (rnd(2) && nthreads >= 4))
+				wave[t] = 1;
+			if (rnd(2))
+				sig_after[t] = 1 + rnd(80);
+		}
 	}
 	usim_describe("]}");
 	script_apply_skips(scripts, nthreads);
@@ -227,6 +269,14 @@ static void run_common(int live)
 		choose_futex_faults(1);
 	else
 		no_faults();
+	if (reg_mode) {
+		static const int caps[] = { 1, 2, 2, 8 };
+		int cap = (int) usim_param("knob.bp_init_reader_count", caps[rnd(4)]);
+		bp_cap = cap;
+		usim_set_knob(URCU_VERIF_KNOB_BP_INIT_READER_COUNT, cap);
+		usim_fault_enable("mremap_inplace_fails", rnd(2));
+		usim_signal_handler(10, reg_sig_handler);
+	}
 	gen(live);
 	gptr = new_obj();
 	gptr->version = 0;
@@ -241,15 +291,38 @@ static void run_common(int live)
 				voters++;
 		usim_quiet_expect(voters);
 	}
-	for (t = 0; t < nthreads; t++)
-		if (!scripts[t].skip)
-			pthread_create(&scripts[t].th, NULL, gp_thread, &scripts[t]);
-	for (t = 0; t < nthreads; t++)
-		if (!scripts[t].skip)
-			pthread_join(scripts[t].th, NULL);
+	{
+		int w;
+		uint64_t maps_before = 0;
+		for (w = 0; w < 2; w++) {
+			if (w == 1)
+				maps_before = usim_mmap_calls();
+			for (t = 0; t < nthreads; t++)
+				if (!scripts[t].skip && wave[t] == w)
+					pthread_create(&scripts[t].th, NULL, gp_thread, &scripts[t]);
+			for (t = 0; t < nthreads; t++)
+				if (!scripts[t].skip && wave[t] == w)
+					pthread_join(scripts[t].th, NULL);
+		}
+		/* slots of exited threads are reused: the late wave (<= 2 threads, capacity >= 2) maps nothing */
+		{
+			int n1 = 0;
+			for (t = 0; t < nthreads; t++)
+				n1 += !scripts[t].skip && wave[t] == 1;
+			if (n1 > bp_cap)
+				registered_in_wave0 = 0;	/* growth may be legitimately needed */
+		}
+		if (reg_mode && F->is_bp && registered_in_wave0 && usim_mmap_calls() != maps_before)
+			usim_fail("bp-registry-no-reuse",
+				"after every thread of the first wave exited, %lu new registry mapping request(s) were made for a second wave that fits the initial capacity",
+				(unsigned long) (usim_mmap_calls() - maps_before));
+		if (reg_mode && F->is_bp)
+			usim_probe_n("registry.handler_runs", handler_runs);
+	}
 	if (orc_ngp() && orc_ncs() && nthreads > 1)
 		usim_probe("gp.run_with_gp_and_cs");
 }
 
 void scen_gp(void) { run_common(0); }
 void scen_gp_live(void) { run_common(1); }
+void scen_registry(void) { reg_mode = 1; run_common((int) usim_param("with_faults", rnd(2))); }
